@@ -292,15 +292,80 @@ func genCB(g *h.Gen) {
 		nops := r.Range(5, 60)
 		cx := func() int { return r.Range(-2, w+1) }
 		cy := func() int { return r.Range(-1, hh) }
+		// what the generator last stored where (in range at the time), for the directed "revisit" op
+		type stored struct {
+			x, y, main int
+			comb       []int
+			style      string
+		}
+		var hist []stored
+		set := func(x, y, m int, comb []int, st string) {
+			ops = append(ops, fmt.Sprintf("S %d %d %d %s %s", x, y, m, h.ShowIntList(comb), st))
+			if x >= 0 && y >= 0 && x < w && y < hh {
+				hist = append(hist, stored{x, y, m, comb, st})
+			}
+		}
 		for j := 0; j < nops; j++ {
 			switch k := r.Intn(100); {
+			case k < 12 && len(hist) > 0:
+				// revisit: mark a cell the history has written clean, then store the same content with exactly ONE
+				// component minimally changed (one combining rune replaced / dropped / appended / the list reordered, the
+				// style alone, the primary rune alone, or nothing at all) and ask Dirty. Dirty-tracking shortcuts that
+				// compare or alias the remembered content wrongly only show on such near-identical rewrites, and for
+				// zero-width primaries the "force dirty" branch of SetContent does not mask them.
+				c := hist[r.Intn(len(hist))]
+				if c.x >= w || c.y >= hh {
+					break
+				}
+				if r.Chance(40) { // make the cell's content zero-width / combining-rich first
+					c.main = h.Pick(r, []int{0x200d, 0x200b, 0x0301, 0x20dd, 0xfe0f, 'e', 0x4e16})
+					c.comb = []int{h.Pick(r, genComb), h.Pick(r, genComb), h.Pick(r, genComb)}[:r.Range(1, 3)]
+					set(c.x, c.y, c.main, c.comb, c.style)
+				}
+				ops = append(ops, fmt.Sprintf("D %d %d 0", c.x, c.y))
+				comb := append([]int{}, c.comb...)
+				m, st := c.main, c.style
+				switch r.Intn(8) {
+				case 0:
+					if len(comb) > 0 {
+						comb[r.Intn(len(comb))] = h.Pick(r, genComb)
+					}
+				case 1:
+					if len(comb) > 0 {
+						comb = comb[:len(comb)-1]
+					}
+				case 2:
+					comb = append(comb, h.Pick(r, genComb))
+				case 3:
+					if len(comb) > 1 {
+						comb[0], comb[len(comb)-1] = comb[len(comb)-1], comb[0]
+					}
+				case 4:
+					st = RandStyle(r).String()
+				case 5:
+					m = RandRune(r)
+				case 6:
+					if len(comb) > 0 {
+						comb = comb[1:]
+					}
+				}
+				set(c.x, c.y, m, comb, st)
+				ops = append(ops, fmt.Sprintf("Q %d %d", c.x, c.y))
 			case k < 45:
-				ops = append(ops, fmt.Sprintf("S %d %d %d %s %s", cx(), cy(), RandRune(r), h.ShowIntList(RandComb(r)), RandStyle(r)))
+				set(cx(), cy(), RandRune(r), RandComb(r), RandStyle(r).String())
 			case k < 50:
 				fr := h.Pick(r, []int{' ', 'x', '.', 0x2500, 0x4e16, 0, 7})
 				ops = append(ops, fmt.Sprintf("F %d %s", fr, RandStyle(r)))
 			case k < 55:
+				lastW, lastH := w, hh
 				w, hh = r.Range(0, 6), r.Range(0, 4)
+				if r.Chance(40) && len(ops) > 1 { // keep one dimension: height-only / width-only resizes
+					if r.Chance(50) {
+						w = lastW
+					} else {
+						hh = lastH
+					}
+				}
 				ops = append(ops, fmt.Sprintf("R %d %d", w, hh))
 			case k < 58:
 				ops = append(ops, "I")
